@@ -23,6 +23,17 @@ import (
 const closeDeadline = 6 * time.Second // generous: the machine is shared; a correct combinator closes in microseconds
 const settleDeadline = 3 * time.Second
 
+// unclosed counts the runs of the current batch whose output was not closed within closeDeadline; once a batch has
+// produced 8 of them the verdict is settled and the remaining runs of that batch wait 1 s only (keeps a failing tree fast)
+var unclosed atomic.Int32
+
+func deadlineNow() time.Duration {
+	if unclosed.Load() >= 8 {
+		return time.Second
+	}
+	return closeDeadline
+}
+
 // ---------- predicates / functions handed to the combinators (mirrored by C18.Check.pred) ----------
 
 type pred struct{ kind, m, r, c int }
@@ -119,7 +130,15 @@ type stageCase struct {
 	need     int               // abandon: inputs to hand over so that output j+1 is pending at a SEND site
 	k       int
 	pause   bool
-	mk      func(ctx context.Context, in chan int) <-chan int
+	which   int
+	n       int  // TaskN / SkipN argument as passed
+	p       pred // predicate of TaskFn / TaskWhile / SkipFn / SkipWhile
+	ma, mb  int  // MapChan: fn v = ma*v + mb
+	ptr     bool // element type *int instead of int: the user function dereferences its argument; a fabricated zero value is nil
+	resume  bool // abandon scenario, second flavour: after the cancel the consumer reads on and the producer keeps feeding
+	ctxKind int  // mode 4: 0 = cancel() called before the combinator, 1 = a context whose deadline has already passed
+	mu      sync.Mutex
+	calls   []int // arguments the user function was called with, in call order (sentinel = nil pointer / panic on dereference)
 	seed    uint64
 	// observations
 	ins, outs         []int
@@ -187,42 +206,30 @@ func genStage(r *vhlib.Rng, which int) *stageCase {
 			return nil
 		}
 	}
+	c.which, c.n, c.p = which, n, p
+	c.ptr = r.Chance(1, 3)
+	c.ctxKind = r.Intn(2)
 	switch which {
 	case 0:
 		c.name, c.coq, c.aware = "Stream", "CStream", true
-		vals := c.planned
-		c.mk = func(ctx context.Context, _ chan int) <-chan int { return bc.Stream(ctx, vals...) }
 	case 1:
 		c.name, c.coq, c.aware = "TaskN", fmt.Sprintf("(CTaskN %s)", vhlib.Nat(nn)), true
-		c.mk = func(ctx context.Context, in chan int) <-chan int { return bc.TaskN[int](ctx, in, n) }
 	case 2:
 		c.name, c.coq, c.aware = "TaskFn", fmt.Sprintf("(CTaskFn %s)", p.coq()), true
-		c.mk = func(ctx context.Context, in chan int) <-chan int { return bc.TaskFn[int](ctx, in, p.eval) }
 	case 3:
 		c.name, c.coq, c.aware = "TaskWhile", fmt.Sprintf("(CTaskWhile %s)", p.coq()), true
-		c.mk = func(ctx context.Context, in chan int) <-chan int { return bc.TaskWhile[int](ctx, in, p.eval) }
 	case 4:
 		c.name, c.coq, c.aware = "SkipN", fmt.Sprintf("(CSkipN %s)", vhlib.Nat(nn)), true
-		c.mk = func(ctx context.Context, in chan int) <-chan int { return bc.SkipN[int](ctx, in, n) }
 	case 5:
 		c.name, c.coq, c.aware = "SkipFn", fmt.Sprintf("(CSkipFn %s)", p.coq()), true
-		c.mk = func(ctx context.Context, in chan int) <-chan int { return bc.SkipFn[int](ctx, in, p.eval) }
 	case 6:
 		c.name, c.coq, c.aware = "SkipWhile", fmt.Sprintf("(CSkipWhile %s)", p.coq()), true
-		c.mk = func(ctx context.Context, in chan int) <-chan int { return bc.SkipWhile[int](ctx, in, p.eval) }
 	case 7:
-		a, b := r.Range(-3, 3), r.Range(-5, 5)
-		c.name, c.coq = "MapChan", fmt.Sprintf("(CMapChan %s %s)", vhlib.Z(int64(a)), vhlib.Z(int64(b)))
+		c.ma, c.mb = r.Range(-3, 3), r.Range(-5, 5)
+		c.name, c.coq = "MapChan", fmt.Sprintf("(CMapChan %s %s)", vhlib.Z(int64(c.ma)), vhlib.Z(int64(c.mb)))
 		c.nilIn = r.Chance(1, 12)
-		c.mk = func(_ context.Context, in chan int) <-chan int {
-			if in == nil {
-				return bc.MapChan[int](nil, func(v int) int { return a*v + b })
-			}
-			return bc.MapChan[int](in, func(v int) int { return a*v + b })
-		}
 	default:
 		c.name, c.coq = "Pipeline", "CPipeline"
-		c.mk = func(_ context.Context, in chan int) <-chan int { return bc.Pipeline[int](in) }
 	}
 	if c.aware {
 		switch r.Intn(12) {
@@ -268,7 +275,98 @@ func genStage(r *vhlib.Rng, which int) *stageCase {
 	return c
 }
 
+// sentinel stands for "not a value that was ever sent": a nil pointer handed to the user function or delivered
+// to the consumer (a fabricated zero value of a pointer element type), or a dereference that panicked.
+const sentinel = -1000000007
+
+// codec: how the int values of a case travel through channels of element type T.
+type codec[T any] struct {
+	enc func(int) T
+	dec func(T) int // total: sentinel for nil
+}
+
+var intCodec = codec[int]{enc: func(v int) int { return v }, dec: func(v int) int { return v }}
+var ptrCodec = codec[*int]{
+	enc: func(v int) *int { x := v; return &x },
+	dec: func(p *int) (v int) {
+		defer func() { // the user function dereferences its argument: a panic in the worker is recorded, not fatal
+			if recover() != nil {
+				v = sentinel
+			}
+		}()
+		return *p
+	},
+}
+
+func (c *stageCase) record(v int) {
+	c.mu.Lock()
+	c.calls = append(c.calls, v)
+	c.mu.Unlock()
+}
+
+// mkStage builds the real combinator for element type T; every user function records the argument it was called with.
+func mkStage[T any](c *stageCase, e codec[T], ctx context.Context, in chan T) <-chan T {
+	predT := func(x T) bool {
+		v := e.dec(x)
+		c.record(v)
+		if v == sentinel {
+			return false
+		}
+		return c.p.eval(v)
+	}
+	switch c.which {
+	case 0:
+		vals := make([]T, len(c.planned))
+		for i, v := range c.planned {
+			vals[i] = e.enc(v)
+		}
+		return bc.Stream(ctx, vals...)
+	case 1:
+		return bc.TaskN[T](ctx, in, c.n)
+	case 2:
+		return bc.TaskFn[T](ctx, in, predT)
+	case 3:
+		return bc.TaskWhile[T](ctx, in, predT)
+	case 4:
+		return bc.SkipN[T](ctx, in, c.n)
+	case 5:
+		return bc.SkipFn[T](ctx, in, predT)
+	case 6:
+		return bc.SkipWhile[T](ctx, in, predT)
+	case 7:
+		fn := func(x T) T {
+			v := e.dec(x)
+			c.record(v)
+			if v == sentinel {
+				return x
+			}
+			return e.enc(c.ma*v + c.mb)
+		}
+		if in == nil {
+			return bc.MapChan[T](nil, fn)
+		}
+		return bc.MapChan[T](in, fn)
+	default:
+		return bc.Pipeline[T](in)
+	}
+}
+
 func (c *stageCase) run() {
+	if c.ptr {
+		runStage(c, ptrCodec)
+	} else {
+		runStage(c, intCodec)
+	}
+}
+
+func (c *stageCase) runAbandon() bool {
+	if c.ptr {
+		return runAbandonG(c, ptrCodec)
+	}
+	return runAbandonG(c, intCodec)
+}
+
+func runStage[T any](c *stageCase, e codec[T]) {
 	r := vhlib.NewRng(c.seed)
 	rp, rc, rt := r.Fork(), r.Fork(), r.Fork()
 	ctx, cancel := context.WithCancel(context.Background())
@@ -277,14 +375,22 @@ func (c *stageCase) run() {
 	var issuedAt atomic.Int64
 	doCancel := func() { issued.Store(true); issuedAt.CompareAndSwap(0, time.Now().UnixNano()); cancel() }
 	if c.mode == 4 {
-		doCancel()
+		if c.ctxKind == 1 { // the earliest cancellation point: a context that has expired before the combinator is even called
+			cancel()
+			ctx, cancel = context.WithDeadline(context.Background(), time.Now().Add(-time.Second))
+			defer cancel()
+			issued.Store(true)
+			issuedAt.Store(time.Now().UnixNano())
+		} else {
+			doCancel()
+		}
 	}
-	var in chan int
+	var in chan T
 	isStream := c.name == "Stream"
 	if !c.nilIn && !isStream {
-		in = make(chan int, c.incap)
+		in = make(chan T, c.incap)
 	}
-	out := c.mk(ctx, in)
+	out := mkStage(c, e, ctx, in)
 	stop := make(chan struct{})
 	var wg sync.WaitGroup
 	handed := 0
@@ -301,7 +407,7 @@ func (c *stageCase) run() {
 				}
 				delay(rp)
 				select {
-				case in <- v:
+				case in <- e.enc(v):
 					handed++
 					if c.mode == 2 && handed == c.k {
 						doCancel()
@@ -336,7 +442,7 @@ func (c *stageCase) run() {
 			}
 		}()
 	}
-	dl := time.NewTimer(closeDeadline)
+	dl := time.NewTimer(deadlineNow())
 	defer dl.Stop()
 loop:
 	for {
@@ -357,9 +463,10 @@ loop:
 				}
 				break loop
 			}
-			c.outs = append(c.outs, v)
+			c.outs = append(c.outs, e.dec(v))
 		case <-dl.C:
 			c.cancelled = issued.Load()
+			unclosed.Add(1)
 			break loop
 		}
 	}
@@ -379,18 +486,18 @@ loop:
 // send's select can end the goroutine: it must be gone (NumGoroutine back to the level before the run) within the
 // deadline, and the output must then be closed. Runs sequentially on the calling goroutine (NumGoroutine is global).
 // Returns true when the goroutine leaked.
-func (c *stageCase) runAbandon() bool {
+func runAbandonG[T any](c *stageCase, e codec[T]) bool {
 	r := vhlib.NewRng(c.seed)
 	base := runtime.NumGoroutine()
 	ctx, cancel := context.WithCancel(context.Background())
 	defer cancel()
 	isStream := c.name == "Stream"
-	var in chan int
+	var in chan T
 	if !isStream {
-		in = make(chan int)
+		in = make(chan T)
 	}
 	c.incap = 0
-	out := c.mk(ctx, in)
+	out := mkStage(c, e, ctx, in)
 	stop := make(chan struct{})
 	handedAll := make(chan struct{})
 	var wg sync.WaitGroup
@@ -399,21 +506,34 @@ func (c *stageCase) runAbandon() bool {
 		wg.Add(1)
 		go func() {
 			defer wg.Done()
-			for _, v := range c.planned[:c.need] {
+			for i, v := range c.planned {
+				if i == c.need {
+					close(handedAll)
+					if !c.resume {
+						<-stop
+						return
+					}
+				}
 				select {
-				case in <- v:
+				case in <- e.enc(v):
 					handed++
 				case <-stop:
 					return
 				}
 			}
-			close(handedAll)
-			<-stop
+			if len(c.planned) == c.need {
+				close(handedAll)
+				if !c.resume {
+					<-stop
+					return
+				}
+			}
+			close(in) // resume variant: the producer keeps feeding to the end
 		}()
 	} else {
 		close(handedAll)
 	}
-	dl := time.NewTimer(closeDeadline)
+	dl := time.NewTimer(deadlineNow())
 	defer dl.Stop()
 	early := false
 	for len(c.outs) < c.abandonJ && !early {
@@ -423,7 +543,7 @@ func (c *stageCase) runAbandon() bool {
 				early = true
 				break
 			}
-			c.outs = append(c.outs, v)
+			c.outs = append(c.outs, e.dec(v))
 		case <-dl.C:
 			early = true
 		}
@@ -441,14 +561,51 @@ func (c *stageCase) runAbandon() bool {
 	}
 	cancel()
 	c.cancelled = true
+	if c.resume {
+		// the consumer comes back at once and reads to the close while the producer keeps offering the rest: a stage
+		// that dropped the pending value but kept working would now deliver a later one (a hole, not a prefix)
+	again:
+		for {
+			select {
+			case v, more := <-out:
+				if !more {
+					c.closed = true
+					break again
+				}
+				c.outs = append(c.outs, e.dec(v))
+			case <-dl.C:
+				unclosed.Add(1)
+				break again
+			}
+		}
+	}
 	close(stop)
 	wg.Wait()
 	_, ok := settle(base)
-	if ok { // the goroutine is gone: whatever is left in out can be read without blocking
-		for v := range out {
-			c.outs = append(c.outs, v)
+	if c.resume {
+		if isStream {
+			c.ins = c.planned
+			c.incap = len(c.planned)
+		} else {
+			c.ins = c.planned[:handed]
 		}
-		c.closed = true
+		return !ok
+	}
+	if ok { // the goroutine is gone: out must be closed by now; a goroutine that ended WITHOUT closing leaves a
+		// channel on which a receive would block for ever, so look without blocking
+	drain:
+		for {
+			select {
+			case v, more := <-out:
+				if !more {
+					c.closed = true
+					break drain
+				}
+				c.outs = append(c.outs, e.dec(v))
+			default:
+				break drain // not closed although its goroutine is gone: recorded as closed = false (kind 2)
+			}
+		}
 	} else { // rescue the stuck sender so that later runs start from a clean level
 		t := time.NewTimer(200 * time.Millisecond)
 	rescue:
@@ -491,13 +648,17 @@ func genAbandon(r *vhlib.Rng, which int) *stageCase {
 			need++
 		}
 		c.abandonJ, c.need, c.mode, c.k = j, need, 6, j
+		c.resume = r.Bool()
 		return c
 	}
 }
 
 func (c *stageCase) term() string {
-	return fmt.Sprintf("KStage %s %s %s %s %s %s %s", c.coq, vhlib.Bool(c.nilIn), vhlib.Nat(c.incap),
-		vhlib.IntList(c.ins), vhlib.IntList(c.outs), vhlib.Bool(c.closed), vhlib.Bool(c.cancelled))
+	c.mu.Lock()
+	calls := append([]int(nil), c.calls...)
+	c.mu.Unlock()
+	return fmt.Sprintf("KStage %s %s %s %s %s %s %s %s", c.coq, vhlib.Bool(c.nilIn), vhlib.Nat(c.incap),
+		vhlib.IntList(c.ins), vhlib.IntList(c.outs), vhlib.Bool(c.closed), vhlib.Bool(c.cancelled), vhlib.IntList(calls))
 }
 
 // ---------- fan-in ----------
@@ -766,6 +927,15 @@ type reduceCase struct {
 	seed     uint64
 	result   int
 	returned bool
+	mu       sync.Mutex
+	calls    [][2]int // argument pairs the reducer was called with
+}
+
+func (c *reduceCase) fn(x, v int) int {
+	c.mu.Lock()
+	c.calls = append(c.calls, [2]int{x, v})
+	c.mu.Unlock()
+	return c.f.eval(x, v)
 }
 
 func (c *reduceCase) run() {
@@ -787,9 +957,9 @@ func (c *reduceCase) run() {
 	done := make(chan int, 1)
 	go func() {
 		if in == nil {
-			done <- bc.ReduceChan[int](nil, c.f.eval)
+			done <- bc.ReduceChan[int](nil, c.fn)
 		} else {
-			done <- bc.ReduceChan[int](in, c.f.eval)
+			done <- bc.ReduceChan[int](in, c.fn)
 		}
 	}()
 	select {
@@ -865,6 +1035,7 @@ func settle(base int) (int, bool) {
 
 // runBatch runs the jobs with bounded parallelism, then requires the goroutine count to settle.
 func runBatch(w *vhlib.Writer, label string, jobs []func(), par int) {
+	unclosed.Store(0)
 	base, _ := settle(runtime.NumGoroutine()) // current level (nothing of ours is running between batches)
 	sem := make(chan struct{}, par)
 	var wg sync.WaitGroup
@@ -898,7 +1069,7 @@ func main() {
 	w := vhlib.NewWriter(o.Out, "From VF Require Import C18.Stage C18.Check.\nLocal Open Scope Z_scope.", "case", "mismatches", 400)
 	reps := 500
 	par := 12
-	nAbandon := 120
+	nAbandon := 200
 	if o.Thorough() {
 		reps = 6000
 		nAbandon = 1500
@@ -919,7 +1090,11 @@ func main() {
 			leaks := 0
 			for i := 0; i < nAbandon && leaks < 4; i++ { // each leak costs the settle deadline: a few are proof enough
 				c := genAbandon(rng, which)
-				if c.runAbandon() {
+				leaked := c.runAbandon()
+				if !c.closed && !leaked {
+					leaks++ // not closed although nothing leaked (or the close never came): also settles the verdict
+				}
+				if leaked {
 					leaks++
 					w.Violation(name, "goroutine leak", map[string]interface{}{"scenario": "consumer stopped after j values, cancel while value j+1 is pending at the send",
 						"j": c.abandonJ, "coq": c.coq, "planned": c.planned, "handed": c.ins, "received": c.outs})
@@ -937,8 +1112,8 @@ func main() {
 				complete++
 			}
 			w.Case(c.term(), c.name, len(c.ins) > 0, nil, map[string]interface{}{"combinator": c.name, "coq": c.coq,
-				"planned": c.planned, "incap": c.incap, "cancel_mode": c.mode, "cancel_k": c.k, "abandon_j": c.abandonJ, "nil_in": c.nilIn, "run_seed": c.seed,
-				"observed": map[string]interface{}{"ins": c.ins, "outs": c.outs, "closed": c.closed, "cancelled": c.cancelled}})
+				"planned": c.planned, "incap": c.incap, "cancel_mode": c.mode, "cancel_k": c.k, "abandon_j": c.abandonJ, "abandon_resume": c.resume, "pointer_elements": c.ptr, "ctx_kind": c.ctxKind, "nil_in": c.nilIn, "run_seed": c.seed,
+				"observed": map[string]interface{}{"ins": c.ins, "outs": c.outs, "closed": c.closed, "cancelled": c.cancelled, "fn_called_with": c.calls}})
 		}
 	}
 	for _, merge := range []bool{false, true} {
@@ -992,7 +1167,13 @@ func main() {
 				w.Violation("ReduceChan", "did not return", map[string]interface{}{"planned": c.planned, "nil": c.nilIn})
 				continue
 			}
-			term := fmt.Sprintf("KReduce %s %s %s %s", vhlib.Bool(c.nilIn), c.f.coq(), vhlib.IntList(c.planned), vhlib.Z(int64(c.result)))
+			c.mu.Lock()
+			pairs := make([]string, len(c.calls))
+			for i, pr := range c.calls {
+				pairs[i] = vhlib.Pair(vhlib.Z(int64(pr[0])), vhlib.Z(int64(pr[1])))
+			}
+			c.mu.Unlock()
+			term := fmt.Sprintf("KReduce %s %s %s %s %s", vhlib.Bool(c.nilIn), c.f.coq(), vhlib.IntList(c.planned), vhlib.Z(int64(c.result)), vhlib.List(pairs))
 			w.Case(term, "ReduceChan", len(c.planned) > 1, nil, map[string]interface{}{"combinator": "ReduceChan", "reducer": c.f.coq(),
 				"planned": c.planned, "nil_in": c.nilIn, "observed": c.result})
 		}
